@@ -421,7 +421,7 @@ struct Run {
         if (w[0] == "flush" && w.size() == 1) { cm().ActiveChainstate().ForceFlushStateToDisk(); return ""; }
         if (w[0] == "dump" && w.size() == 1) return dump(false);
         if (w[0] == "dumpdb" && w.size() == 1) return dump(true);
-        throw std::runtime_error("bad op " + w[0]);
+        throw std::runtime_error("BADSCRIPT");
     }
 };
 
@@ -439,7 +439,15 @@ std::string run_chain_case(const std::string& line)
     for (size_t i = start; i < ops.size(); ++i) {
         auto w = vd::words(ops[i]);
         if (w.empty()) continue;
-        std::string r = run.op(w);
+        std::string r;
+        if (w[0] == "tx" || w[0] == "mine") {
+            // a script that names something undefined, defines a name twice, ... is not a case at all
+            try { r = run.op(w); } catch (const std::exception&) { return "BADSCRIPT"; }
+        } else {
+            if (w.size() >= 2 && (w[0] == "submit" || w[0] == "invalidate" || w[0] == "reconsider") && !run.blocks.count(w[1])) return "BADSCRIPT";
+            if (w[0] == "submit" && w.size() == 2 && w[1] == "F") return "BADSCRIPT";
+            r = run.op(w);   // what the node throws here is reported as EXC <what>
+        }
         if (r.empty()) continue;
         if (!out.empty()) out += " | ";
         out += r;
@@ -500,6 +508,7 @@ std::string guarded(const std::string& line)
         }
         return run_chain_case(line);
     } catch (const std::exception& e) {
+        if (std::string(e.what()) == "BADSCRIPT") return "BADSCRIPT";
         return std::string("EXC ") + e.what();
     }
 }
